@@ -58,6 +58,7 @@ type App struct {
 	app    *fx.App
 	dir    string
 	ownDir bool
+	ports  []int
 }
 
 var ( //nolint:gochecknoglobals
@@ -218,6 +219,7 @@ func start(opts Options) (*App, error) {
 		MgmtAddr: net.JoinHostPort(host, fmt.Sprint(mgmtPort)),
 		dir:      dir,
 		ownDir:   ownDir,
+		ports:    []int{mainPort, mgmtPort},
 	}
 
 	fxOpts := []fx.Option{
@@ -285,6 +287,13 @@ func (a *App) cleanup() {
 	if a.ownDir {
 		os.RemoveAll(a.dir)
 	}
+
+	// the ports may be handed out again
+	portMu.Lock()
+	for _, p := range a.ports {
+		delete(portUsed, p)
+	}
+	portMu.Unlock()
 }
 
 func (a *App) Stop() {
